@@ -42,6 +42,7 @@ type Oblig struct {
 	Instances []*ObligInstance `json:"instances"`
 	nRefuted  int32
 	nUnknown  int32
+	nSessUnknown int32
 }
 
 // refuted: number of instances of the obligation for which a solver produced a counterexample.
@@ -172,10 +173,21 @@ func (x *Exec) prove1(st *State, name, kind, clause string, goal Term, where, ex
 		inst.Result, inst.Solver = "skipped", "not asked: the obligation already has counterexamples on other paths"
 		return
 	}
+	if expect == "" && (atomic.LoadInt32(&o.nUnknown) >= 3) {
+		inst.Result, inst.Solver = "skipped", "not asked: the obligation already failed on other paths"
+		return
+	}
 	t0 := time.Now()
 	x.sess.Push()
 	x.sess.Assert(tNot(goal))
-	r := x.sess.Check()
+	r := "unknown"
+	if atomic.LoadInt32(&o.nSessUnknown) < 3 {
+		r = x.sess.Check()
+		if r == "unknown" {
+			atomic.AddInt32(&o.nSessUnknown, 1)
+		}
+	} // else: the incremental solver gave up on three instances of this obligation already - the
+	// stand-alone solvers are asked directly (same verdict, without the wait)
 	script := ""
 	if r != "unsat" {
 		script = x.sess.Script("(check-sat)", "(get-model)")
